@@ -216,10 +216,10 @@ fn run_type<T: Tv>(idx: usize, rep: &mut Report, rng: &mut Rng, args: &Args) {
             let mut e = Enc::new();
             val.enc(c, &mut e);
             // ---- serialize: size, bytes
-            let size = rep.total(&sig2(T::KIND, "serialized_size"), || json!({"type": tname}), || val.serialized_size(c));
+            let size = rep.total(&sig2(T::KIND, "serialized_size"), || json!({"type": tname}), || crate::api::size(&val, c));
             let mut w = CountingWriter::new();
             let sr = rep.total(&sig2(T::KIND, "serialize"), || json!({"type": tname, "value": format!("{val:?}")}), || {
-                val.serialize_with_mode(&mut w, c)
+                crate::api::ser(&val, &mut w, c)
             });
             let (Some(size), Some(sr)) = (size, sr) else { continue };
             rep.op("serialize");
@@ -534,8 +534,8 @@ fn run_pending(rep: &mut Report, tname: &str, pend: Vec<Pending>) {
 
 fn ser_of<S: CanonicalSerialize + ?Sized>(rep: &mut Report, what: &str, s: &S, c: Compress) -> Option<(Vec<u8>, usize)> {
     let mut w = CountingWriter::new();
-    let size = rep.total(&format!("ser/container/{what}/serialized_size"), || json!({}), || s.serialized_size(c))?;
-    let r = rep.total(&format!("ser/container/{what}/serialize"), || json!({}), || s.serialize_with_mode(&mut w, c))?;
+    let size = rep.total(&format!("ser/container/{what}/serialized_size"), || json!({}), || crate::api::size(s, c))?;
+    let r = rep.total(&format!("ser/container/{what}/serialize"), || json!({}), || crate::api::ser(s, &mut w, c))?;
     if r.is_err() {
         rep.violation(format!("ser/container/{what}/serialize-error"), json!({"error": format!("{r:?}")}));
         return None;
